@@ -30,7 +30,7 @@ Section GenEqRender.
   (* ------------------------------------------------------------ sdf/triangle3.go, sdf/line.go *)
   Lemma Triangle3_Degenerate_eq : forall (t : V3 * V3 * V3) (tol : T),
       rg_sdf_Triangle3_Degenerate t tol = tri3_degenerate t tol.
-  Proof. intros [[t0 t1] t2] tol. same_as TRANSL_render_Triangle3_Degenerate. Qed.
+  Proof. intros [[t0 t1] t2] tol. unfold rg_sdf_Triangle3_Degenerate, tri3_degenerate. cbn [fst snd]. by_cases TRANSL_render_Triangle3_Degenerate. Qed.
   Lemma Line2_Degenerate_eq : forall (l : V2 * V2) (tol : T),
       rg_sdf_Line2_Degenerate l tol = line2_degenerate l tol.
   Proof. same_as TRANSL_render_Line2_Degenerate. Qed.
